@@ -5,6 +5,7 @@ CONSTANTS
   RxDeltas = {0}
   TsVals = {0}
   Kinds = {"norm"}
+  IdxDeltas = {1}
   FixMerged = TRUE
   Delays = {0, 5, 30, 65}
   OffTimes = {1, 15, 100}
